@@ -88,6 +88,7 @@ type ReqDesc struct {
 	Accept  []mon.Q `json:"accept"`
 	Flavour string  `json:"flavour,omitempty"`
 	Auth    string  `json:"auth,omitempty"` // none wrong malformed right
+	Flow    string  `json:"flow,omitempty"` // "" the reflective (untyped) operation handler; "generated": the sequence a generated server's operation runs (RouteInfo, Authorize, BindValidRequest, Respond)
 	Outcome Outcome `json:"outcome"`
 }
 
@@ -387,10 +388,44 @@ func (b *built) handler() (http.Handler, *middleware.Context) {
 				b.obs.routed = true
 				b.obs.produces = append([]string(nil), mr.Produces...)
 			}
+			if b.cur != nil && b.cur.Flow == "generated" && middleware.MatchedRouteFrom(r) != nil {
+				b.generated(ctx, w, r)
+				return
+			}
 			next.ServeHTTP(w, r)
 		})
 	})
 	return h, ctx
+}
+
+type nopBinder struct{}
+
+func (nopBinder) BindRequest(*http.Request, *middleware.MatchedRoute) error { return nil }
+
+// generated serves the request the way the ServeHTTP method of a go-swagger generated operation does.
+func (b *built) generated(ctx *middleware.Context, rw http.ResponseWriter, r *http.Request) {
+	route, rCtx, _ := ctx.RouteInfo(r)
+	if rCtx != nil {
+		*r = *rCtx
+	}
+	_, aCtx, err := ctx.Authorize(r, route)
+	if err != nil {
+		ctx.Respond(rw, r, route.Produces, route, err)
+		return
+	}
+	if aCtx != nil {
+		*r = *aCtx
+	}
+	if err := ctx.BindValidRequest(r, route, nopBinder{}); err != nil {
+		ctx.Respond(rw, r, route.Produces, route, err)
+		return
+	}
+	res, herr := b.handle()
+	if herr != nil {
+		ctx.Respond(rw, r, route.Produces, route, herr)
+		return
+	}
+	ctx.Respond(rw, r, route.Produces, route, res)
 }
 
 func producesOf(ctx *middleware.Context, method string, op int) []string {
@@ -656,6 +691,9 @@ func runCaseOn(m *mon.M, c *Case, b *built, h http.Handler) {
 		stage = "unknown-early"
 	}
 	m.Class("stage:" + stage)
+	if rq.Flow != "" {
+		m.Class("flow:" + rq.Flow)
+	}
 	shape := shapeOf(ct)
 	if w, ok := wantCT(); ok && w != "" {
 		shape = shapeOf(w)
@@ -669,7 +707,7 @@ func runCaseOn(m *mon.M, c *Case, b *built, h http.Handler) {
 		return
 	}
 	succ, hasSucc := op.success()
-	m.NT(fmt.Sprintf("%s|%s|%s|%s|%s|%d|%v", stage, shape, rq.Flavour, rq.Outcome.Kind, op.Method, succ, d.DefaultProduces != ""))
+	m.NT(fmt.Sprintf("%s|%s|%s|%s|%s|%d|%v|%s", stage, shape, rq.Flavour, rq.Outcome.Kind, op.Method, succ, d.DefaultProduces != "", rq.Flow))
 	ctx := fmt.Sprintf("%s %s Accept=%q produces=%q default=%q", method, path, lines, obs.produces, d.DefaultProduces)
 
 	checkErrorRouted := func(kind string, wantErr error, wantCode int) bool {
@@ -1141,6 +1179,9 @@ func genReq(r *rand.Rand, d *APIDesc, i int) ReqDesc {
 		rq.Auth = []string{"none", "wrong", "malformed", "right", "right", "right"}[r.Intn(6)]
 	}
 	rq.Outcome = genOutcome(r, i)
+	if r.Intn(3) == 0 {
+		rq.Flow = "generated"
+	}
 	return rq
 }
 
